@@ -440,6 +440,18 @@ func entryCount(b mp4.Box) int {
 		return len(t.TrackIDs)
 	case *mp4.LevaBox:
 		return len(t.Levels)
+	case *mp4.UUIDBox:
+		if t.Tfrf != nil {
+			return len(t.Tfrf.FragmentAbsoluteTimes)
+		}
+		if t.Senc != nil {
+			return int(t.Senc.SampleCount)
+		}
+		return 0
+	case *mp4.FtypBox:
+		return len(t.CompatibleBrands())
+	case *mp4.StypBox:
+		return len(t.CompatibleBrands())
 	}
 	return -1
 }
@@ -467,7 +479,7 @@ func countJob(data []byte, sr bool) string {
 
 var modelled = map[string]bool{"trun": true, "stts": true, "ctts": true, "stsc": true, "stsz": true, "stco": true, "co64": true,
 	"stss": true, "sdtp": true, "saiz": true, "saio": true, "senc": true, "sbgp": true, "subs": true, "elst": true, "tfra": true, "sidx": true, "sgpd": true,
-	"pssh": true, "ssix": true, "hint": true, "leva": true}
+	"pssh": true, "ssix": true, "hint": true, "leva": true, "uuid": true, "ftyp": true, "styp": true}
 
 func isModelled(c ccase) bool {
 	return len(c.data) >= 16 && modelled[string(c.data[4:8])]
